@@ -22,7 +22,7 @@ PROPS = {
     'C04': dict(race=False, quick=(50000000, 25), thorough=(2000000000, 600), batch=2000),
     'C05': dict(race=False, quick=(50000000, 25), thorough=(2000000000, 600), batch=2000),
     'C06': dict(race=True,  quick=(50000000, 35), thorough=(2000000000, 900), batch=250),
-    'C07': dict(race=True,  quick=(50000000, 35), thorough=(2000000000, 900), batch=1, cold=True),
+    'C07': dict(race=True,  quick=(50000000, 35), thorough=(2000000000, 900), batch=64, cold=True, fork=True),
     'C08': dict(race=False, quick=(50000000, 25), thorough=(2000000000, 600), batch=2000),
     'C09': dict(race=False, quick=(50000000, 25), thorough=(2000000000, 600), batch=2000),
     'C13': dict(race=False, quick=(50000000, 25), thorough=(2000000000, 600), batch=2000),
@@ -145,6 +145,8 @@ class Runner:
                        '-out', out, '-budget', '%.1f' % left]
                 if self.cfg['race']:
                     cmd.append('-begin')
+                if self.cfg.get('fork'):
+                    cmd.append('-fork')
                 p = subprocess.Popen(cmd, stdout=subprocess.DEVNULL, stderr=err, env=self.env())
                 running.append((p, a, cnt, out, err, time.time()))
             if ji < njobs and time.time() >= deadline:
